@@ -1,5 +1,7 @@
 import U3.Drive.Headers
+import U3.Drive.Multipart
 def main (args : List String) : IO UInt32 := do
   match args with
   | ["hd"] => U3.Drive.Headers.main; return 0
+  | ["multipart"] => U3.Drive.Multipart.main; return 0
   | _ => IO.eprintln "usage: u3model <model>"; return 2
